@@ -205,7 +205,7 @@ func c02Strings(c *Ctx, tr *an.Tracer, RS, RM, kp string) {
 	// PutMessage: which writer is reached for which length
 	{
 		var bad []string
-		for _, n := range []int64{0, 1, 252, 253, 254, 255, 1 << 16} {
+		for _, n := range c.grid([]int64{0, 1, 252, 253, 254, 255, 1 << 16}, 0, 600, 1) {
 			_, _, reach := evalAt(pm, pm.Params[1], lenAtom(pm, n))
 			toTiny, toLarge := false, false
 			for _, cs := range an.Calls(pm) {
@@ -273,7 +273,7 @@ func c02Strings(c *Ctx, tr *an.Tracer, RS, RM, kp string) {
 		r.Undecide(RS, kp+"large:layout", c.pos(large.Pos()), "the buffer handed to write() was not found")
 	} else {
 		var bad []string
-		for _, n := range []int64{254, 255, 256, 257, 258, 65535, 65536, 1<<24 - 2, 1<<24 - 1} {
+		for _, n := range c.grid([]int64{254, 255, 256, 257, 258, 65535, 65536, 1<<24 - 2, 1<<24 - 1}, 254, 2100, 1) {
 			atom := lenAtom(large, n)
 			size, ok, reach := evalAt(large, ms.Len, atom)
 			if !ok || !reach[w.Block()] || size != roundUp4(4+n) {
